@@ -515,6 +515,42 @@ pub fn socket_backpressure_case(dir: &std::path::PathBuf) -> Result<(usize, Opti
     res
 }
 
+/// Uploads from a piece larger than 2 MiB (tokio reads files in chunks of at most 2 MiB): requests
+/// before, across and behind the 2 MiB mark and at the very end of the piece must be answered with
+/// exactly the stored bytes.
+pub fn big_piece_upload_case(dir: &PathBuf) -> (u64, Option<(&'static str, String)>) {
+    let p = 2 * 1024 * 1024 + 2 * 16384 + 5;
+    let t = Torrent::new("t", p, &[("f", p + 100)], true);
+    let cfg = WorldCfg { torrent: t.clone(), have: vec![0, 1], peers: vec![peer_cfg(0, false)], gated: false, stale: vec![] };
+    let mut w = World::new(&cfg, dir);
+    let id = w.peers[0].cfg.id;
+    w.feed(0, &[refwire::handshake(t.meta.info_hash(), &id), Msg::Bitfield(vec![0x00]), Msg::Interested]);
+    let mut steps = 1u64;
+    let requests: Vec<(u32, u32, u32)> = vec![(0, 0, 16384), (0, 2088960, 16384), (0, 2097152 - 1, 2), (0, 2097152, 16384), (0, 2097152 + 16384, 16384), (0, (p - 16384) as u32, 16384), (0, (p - 1) as u32, 1), (1, 0, 100), (0, 1000, 1)];
+    for r in &requests {
+        let before = w.peers[0].msgs.len();
+        w.feed(0, &[Msg::Request(r.0, r.1, r.2)]);
+        steps += 1;
+        if let Some(d) = &w.dead {
+            return (steps, Some(("manager-died", d.clone())));
+        }
+        if let Some(pn) = w.handler_panics.first() {
+            return (steps, Some(("connection-task-panicked", format!("Request{:?} on a piece of {} bytes: {}", r, p, pn))));
+        }
+        let answers: Vec<&Msg> = w.peers[0].msgs[before..].iter().filter(|m| matches!(m, Msg::Piece(..))).collect();
+        let want = &t.pieces[r.0 as usize][r.1 as usize..(r.1 + r.2) as usize];
+        match answers.as_slice() {
+            [Msg::Piece(i, b, d)] if *i == r.0 && *b == r.1 && d.as_slice() == want => {}
+            [Msg::Piece(i, b, d)] => {
+                let first_diff = d.iter().zip(want.iter()).position(|(x, y)| x != y);
+                return (steps, Some(("piece-for-invalid-request", format!("piece of {} bytes (more than one 2 MiB file-read chunk): Request{:?} answered with Piece({},{},{}B) whose bytes are not the stored range (first difference at byte {:?} of the block)", p, r, i, b, d.len(), first_diff))));
+            }
+            other => return (steps, Some(("MACHINERY", format!("Request{:?} on the big piece got {} Piece frames", r, other.len())))),
+        }
+    }
+    (steps, None)
+}
+
 pub fn run(ctx: &Ctx) -> Outcome {
     let all = cases(ctx.tier == core::Tier::Thorough);
     let res = core::par_map(
@@ -561,6 +597,19 @@ pub fn run(ctx: &Ctx) -> Outcome {
         per.push(json!({"scenario": Scenario::name(&sc), "depth": depth, "states": st.states, "transitions": st.transitions, "depth_completed": st.depth_completed}));
         bfs_total.merge(&st);
     }
+    // uploads from a piece of more than 2 MiB
+    {
+        let dir = core::private_cwd("c09", "bigpiece");
+        let (n, v) = big_piece_upload_case(&dir);
+        steps += n;
+        if let Some((class, why)) = v {
+            if class == "MACHINERY" {
+                ctx.machinery_error(why);
+            } else {
+                ctx.violation(class, why, json!({"kind": "bigpiece"}));
+            }
+        }
+    }
     // real socket under back-pressure (single execution)
     let bp_dir = core::private_cwd("c09", "backpressure");
     let mut bp_row = json!(null);
@@ -592,6 +641,19 @@ pub fn run(ctx: &Ctx) -> Outcome {
 }
 
 pub fn replay(_ctx: &Ctx, r: &Value) -> i32 {
+    if r["kind"] == "bigpiece" {
+        let dir = core::private_cwd("c09", "replay");
+        return match big_piece_upload_case(&dir).1 {
+            Some((class, why)) => {
+                println!("VIOLATION property=C09 replay=<this file>\n  class={} {}", class, why);
+                1
+            }
+            None => {
+                println!("holds for this case");
+                0
+            }
+        };
+    }
     if r["kind"] == "backpressure" {
         let dir = core::private_cwd("c09", "replay");
         let res = socket_backpressure_case(&dir);
